@@ -121,7 +121,7 @@ def gen_frame(rng, t, ncols: int, kind: str) -> dict:
                 vals.append(f"S{cur}")
             cols.append([name, "str", vals])
         else:
-            typ = rng.choice(["str", "str", "str", "int", "float", "bool"])
+            typ = rng.choice(["str", "str", "str", "int", "float", "bool", "date"])
             if typ == "str":
                 pool = TEXTS if t["convert"] else TEXTS[:6]
                 vals = [rng.choice(pool) if rng.random() > 0.05 else None for _ in range(nrows)]
@@ -133,6 +133,9 @@ def gen_frame(rng, t, ncols: int, kind: str) -> dict:
                     vals = [rng.choice([0, 1, -1, 2, 10 ** 12]) for _ in range(nrows)]
             elif typ == "bool":
                 vals = [rng.choice([True, False, None]) for _ in range(nrows)]
+            elif typ == "date":
+                vals = [f"20{rng.randrange(10, 30)}-{rng.randrange(1, 13):02d}-{rng.randrange(1, 29):02d}"
+                        for _ in range(nrows)]
             else:
                 vals = [round(rng.uniform(-10, 100), 2) for _ in range(nrows)]
                 if rng.random() < 0.4:
@@ -507,7 +510,7 @@ def _uses_colour(recipe) -> bool:
 # building
 # --------------------------------------------------------------------------
 
-_PL_TYPES = {"str": "Utf8", "int": "Int64", "float": "Float64", "bool": "Boolean"}
+_PL_TYPES = {"str": "Utf8", "int": "Int64", "float": "Float64", "bool": "Boolean", "date": "Date"}
 
 
 def build_frame(spec: dict):
@@ -515,15 +518,23 @@ def build_frame(spec: dict):
 
     data = {}
     schema = {}
+    import datetime as _dt
+
     for name, typ, vals in spec["cols"]:
+        if typ == "date":
+            vals = [None if v is None else _dt.date.fromisoformat(v) for v in vals]
         data[name] = vals
         schema[name] = getattr(pl, _PL_TYPES[typ])
     return pl.DataFrame(data, schema=schema)
 
 
 def _norm_cell(x):
-    # floats by repr: NaN compares unequal to itself, -0.0 equal to 0.0
-    return ("f", repr(x)) if isinstance(x, float) else x
+    # floats by repr: NaN compares unequal to itself, -0.0 equal to 0.0; dates by ISO text
+    if isinstance(x, float):
+        return ("f", repr(x))
+    if hasattr(x, "isoformat"):
+        return x.isoformat()
+    return x
 
 
 def frame_snapshot(df) -> dict:
@@ -537,7 +548,8 @@ def frame_snapshot(df) -> dict:
 def expected_frame_snapshot(spec: dict) -> dict:
     return {
         "columns": [c[0] for c in spec["cols"]],
-        "dtypes": [{"str": "String", "int": "Int64", "float": "Float64", "bool": "Boolean"}[c[1]] for c in spec["cols"]],
+        "dtypes": [{"str": "String", "int": "Int64", "float": "Float64", "bool": "Boolean", "date": "Date"}[c[1]]
+                   for c in spec["cols"]],
         "data": {c[0]: [_norm_cell(float(x)) if c[1] == "float" and x is not None else _norm_cell(x) for x in c[2]]
                  for c in spec["cols"]},
     }
@@ -673,7 +685,15 @@ def build(recipe: dict, pool: Pool | None, share: dict | None, figdir: str):
         kw[arg] = pool.component(comp, spec, share.get(comp, False))
     frames = []
     if recipe["kind"] == "figure":
-        kw["rtf_figure"] = rtflite.RTFFigure(figures=figure_paths(recipe, figdir), **recipe["figure"]["kw"])
+        fkey = "figure:" + cjson(recipe["figure"])
+        if share.get("figure") and fkey in pool.objs:
+            pool.shared_hits += 1
+            pool.hit_kinds["figure"] = pool.hit_kinds.get("figure", 0) + 1
+            kw["rtf_figure"] = pool.objs[fkey]
+        else:
+            kw["rtf_figure"] = rtflite.RTFFigure(figures=figure_paths(recipe, figdir), **recipe["figure"]["kw"])
+            if share.get("figure"):
+                pool.objs[fkey] = kw["rtf_figure"]
     else:
         frames = [pool.frame(f, share.get("df", False)) for f in recipe["dfs"]]
         bodies = [pool.component("body", b, share.get("body", False)) for b in recipe["bodies"]]
